@@ -43,8 +43,8 @@ REACH = [
     "insights/core/dr.py::run",
 ]
 PLAN = {
-    "quick": {"shards": 8, "cases": 14, "timeout_s": 900, "min_evaluations": 2500,
-              "min_counters": {"providers_compared": 20000, "corruptions_applied": 2000, "archives_written": 100, "failed_components_checked": 40}},
+    "quick": {"shards": 8, "cases": 42, "timeout_s": 900, "min_evaluations": 7500,
+              "min_counters": {"providers_compared": 60000, "corruptions_applied": 6000, "archives_written": 300, "failed_components_checked": 120}},
     "thorough": {"shards": 16, "cases": 300, "timeout_s": 3300, "min_evaluations": 100000,
                  "min_counters": {"providers_compared": 1000000}},
 }
